@@ -160,8 +160,11 @@ def grid_pred(c):
     for name in ("step", "keep"):
         got = sim.assemble([r[name] for r in res], tuple(cfg["npts"]), name)
         err = np.abs(got - want)
-        if not (err <= 1e-9 * scale).all():
-            idx = tuple(int(x) for x in np.argwhere(~(err <= 1e-9 * scale))[0])
+        # inside the domain the value comes from an interpolant (error relative to the field's scale); outside it is the
+        # boundary value itself (equilibrium at (r, foot), tiny but computed to full relative accuracy)
+        tol_el = np.where(ref.last_outside, 1e-9 * np.abs(want) + 1e-300, 1e-9 * scale)
+        if not (err <= tol_el).all():
+            idx = tuple(int(x) for x in np.argwhere(~(err <= tol_el))[0])
             raise Violation("C11:grid:" + name, "process grid %s, edge %s: line (r=%d, theta=%d, z=%d) node v=%d is %r; advecting it with "
                             "the parallel gradient at that global position (%.4g) gives %r"
                             % (c["nprocs"], c["edge"], idx[0], idx[1], idx[2], idx[3], got[idx], grad[idx[0], idx[2], idx[1]], want[idx]))
